@@ -179,6 +179,19 @@ def rule_K(ck, lib, pfx):
                 if is_cap and t[1] == "Lt":
                     full = (not c[2], lin(t[2]))
             LP = Lin({Pterm: 1})
+            # proc == read_end: everything that was read has been processed (nothing pending)
+            nothing_pending = None
+            for c in x.conds:
+                if c[0] != "true":
+                    continue
+                t = S(c[1])
+                if t[0] == "bin" and t[1] in ("Eq", "Ne"):
+                    try:
+                        d = lin(t[2]) - lin(t[3])
+                    except Exception:
+                        continue
+                    if d == LP - LE or d == LE - LP:
+                        nothing_pending = c[2] if t[1] == "Eq" else (not c[2])
             if pc is False:
                 # usize: not (proc > 0) means proc = 0
                 lp, lr = lp.subst(Pterm, Lin()), lr.subst(Pterm, Lin())
@@ -192,6 +205,8 @@ def rule_K(ck, lib, pfx):
                 okr = lp == Lin() and (lr == LE - LP or (lr == Lin() and full is not None and full[0] and full[1] == LE - LP))
                 ck.judge(okr, pfx + "-K6", key + ":offsets", "after compaction proc' = 0, read' = read_end - proc",
                          "after compaction (proc', read') = (%r, %r), expected (0, read_end - proc)" % (lp, lr), data=data_)
+            elif lr == Lin() and lp == Lin() and nothing_pending is True:
+                ck.ok(pfx + "-K5", key + ":restart", "nothing pending (proc = read_end): both offsets back to 0, no byte is dropped")
             elif lr == Lin() and lp == Lin() and not (LE == Lin()):
                 # discard without copy
                 ok = pc is False and full is not None and full[0] is True
@@ -204,9 +219,12 @@ def rule_K(ck, lib, pfx):
                     why += "without the buffer being full"
                 ck.judge(ok, pfx + "-K6", key + ":discard", "input discarded only when proc = 0 and the buffer is full", why, data=data_)
             else:
-                ok = lr == LE and (lp == LP or lp == Lin()) and pc is False
-                ck.judge(ok, pfx + "-K5", key + ":keep", "nothing to reclaim: read' = read_end, proc' = proc (= 0)",
-                         "tail path leaves (proc', read') = (%r, %r) with proc>0=%s; expected (proc, read_end) under proc = 0" % (lp, lr, pc), data=data_)
+                # the pending bytes stay where they are: nothing to reclaim (proc = 0), or room is left behind them (the test
+                # for a full buffer was made on read_end and failed) so that reclaiming can wait
+                room = full is not None and full[0] is False and full[1] == LE
+                ok = lr == LE and ((pc is False and (lp == LP or lp == Lin())) or (lp == LP and room))
+                ck.judge(ok, pfx + "-K5", key + ":keep", "nothing to reclaim or room left: read' = read_end, proc' = proc",
+                         "tail path leaves (proc', read') = (%r, %r) with proc>0=%s, full=%s; expected (proc, read_end) under proc = 0 or with room left behind read_end" % (lp, lr, pc, full[0] if full else None), data=data_)
     ck.floor(pfx + "-K4", "inner-loop paths (one per terminator)", n_inner, 2)
     ck.floor(pfx + "-K6", "tail paths after the scan", n_tail, 3)
     c02.async_rules(ck, lib, "C07-A")
